@@ -38,10 +38,10 @@ def obligations(tier):
         Ob('strip_tif_equals_unmarked', 'ch', 'capacity 1..4, record-number/checksum trailers, record lengths 1..7 and 1..5',
            ['DeTif.strip_tif', 'DeTif._read_tifs', 'PhysRecWrite.writeLr', 'TifMarkerWrite'], harness='C05_physrec', func='strip_tif_is_plain',
            timeout=240 if q else 900, parts=4, stubs=stubs),
-        Ob('sized_reads_and_skips_quick', 'ch', '2 records (5 and 4 bytes), capacity 2..3, TIF on/off, seek to record j, read(n)/skip(n) with n 0..5 then 0..4, then read rest',
-           ['PhysRecRead.readLrBytes/skipLrBytes/__readOrSkip/__readLdWithinPr/__skipLdWithinPr/seekLr/tellLr'], harness='C05_physrec', func='sized_reads_and_skips_q',
+        Ob('sized_reads_and_skips_quick', 'ch', '2 records (5 and 4 bytes), capacity 2..3, TIF on/off, seek to record j, read(n)/skip(n) with n 0..5 then 0..4, then either read the rest or seek (from wherever the reads stopped) to the other / the same record: first byte, tellLr, seekCurrentLrStart + whole read',
+           ['PhysRecRead.readLrBytes/skipLrBytes/__readOrSkip/__readLdWithinPr/__skipLdWithinPr/seekLr/tellLr/seekCurrentLrStart/_reset'], harness='C05_physrec', func='sized_reads_and_skips_q',
            timeout=240, parts=16, stubs=stubs, tiers=()),
-        Ob('sized_reads_and_skips', 'ch', '2 records (5 and 4 bytes), capacity 2..3, TIF on/off, seek to record j, two operations read(n)/skip(n) with n 0..6, then read rest',
-           ['PhysRecRead.readLrBytes/skipLrBytes/__readOrSkip/__readLdWithinPr/__skipLdWithinPr/seekLr/tellLr'], harness='C05_physrec', func='sized_reads_and_skips',
+        Ob('sized_reads_and_skips', 'ch', '2 records (5 and 4 bytes), capacity 2..3, TIF on/off, seek to record j, two operations read(n)/skip(n) with n 0..6, then either read the rest or seek (from wherever the reads stopped) to the other / the same record: first byte, tellLr, seekCurrentLrStart + whole read',
+           ['PhysRecRead.readLrBytes/skipLrBytes/__readOrSkip/__readLdWithinPr/__skipLdWithinPr/seekLr/tellLr/seekCurrentLrStart/_reset'], harness='C05_physrec', func='sized_reads_and_skips',
            timeout=600, parts=16, stubs=stubs),
     ]
